@@ -39,6 +39,7 @@ def project_of(c, idx):
     space = {"name": sname, "polygon": sname + "_Pol", "type": "CONDITIONED", "mult": 1, "inside": True, "spacecond": "Residencial", "syscond": "Residencial",
              "x": sp["x"] / 10.0, "y": sp["y"] / 10.0, "azimuth": deg(sp["as"]), "walls": []}
     tags, wins = {}, []
+    devs = []
     n = len(sp["outline"])
     for i in range(n):
         a, b = sp["outline"][i], sp["outline"][(i + 1) % n]
@@ -52,6 +53,20 @@ def project_of(c, idx):
             for k in range(nwin):
                 v = {"name": "%s_V%d" % (w["name"], k + 1), "gap": "HuecoDoble", "x": 0.25 + 1.0 * k + 0.25 * ((idx + i) % 3), "y": [0.75, 1.0, 1.25][(idx + k) % 3],
                      "w": [0.75, 0.5][k % 2], "h": [1.25, 1.0][(idx + i) % 2], "setback": [0, 0.2, 0.05][(idx + i + k) % 3]}
+                # shading devices (on edges of rational length): an overhang at 90, 53.13 or 36.87 degrees, side fins
+                if math.isclose(ln, round(ln)) and (idx + i + k) % 2 == 0:
+                    winmm = {"x": round(v["x"] * 1000), "y": round(v["y"] * 1000), "w": round(v["w"] * 1000), "h": round(v["h"] * 1000)}
+                    ang = [[0, 1, 1], [3, 4, 5], [4, 3, 5]][(idx // 2 + i) % 3]
+                    o = {"a": [0.0, 0.1, 0.25][(idx + k) % 3], "b": [0.0, 0.15, 0.3][(idx // 3) % 3], "w": [1.0, 1.5][idx % 2], "d": [0.5, 0.8][(idx // 2) % 2], "angle": deg(ang)}
+                    v["overhang"] = o
+                    devs.append({"kind": "overhang", "name": v["name"] + "_overhang", "edge": i + 1, "win": winmm, "a": round(o["a"] * 1000), "b": round(o["b"] * 1000),
+                                 "w": round(o["w"] * 1000), "d": round(o["d"] * 1000), "h": 0, "ang": ang})
+                    for key, kind in (("lfin", "lfin"), ("rfin", "rfin")):
+                        if (idx + i + (key == "rfin")) % 3 != 0:
+                            f = {"a": [0.0, 0.2][(idx + (key == "rfin")) % 2], "b": [0.0, 0.1, -0.2][(idx // 2) % 3], "h": [1.5, 1.0][(idx // 3) % 2], "d": [0.3, 0.6][(idx + i) % 2]}
+                            v[key] = f
+                            devs.append({"kind": kind, "name": v["name"] + ("_left_fin" if key == "lfin" else "_right_fin"), "edge": i + 1, "win": winmm,
+                                         "a": round(f["a"] * 1000), "b": round(f["b"] * 1000), "h": round(f["h"] * 1000), "d": round(f["d"] * 1000), "w": 0, "ang": [0, 1, 1]})
                 w["windows"].append(v)
                 wins.append({"name": v["name"], "x": round(v["x"] * 1000), "y": round(v["y"] * 1000), "w": round(v["w"] * 1000), "h": round(v["h"] * 1000),
                              "sb": round(v["setback"] * 1000), "wall": w["name"]})
@@ -80,6 +95,9 @@ def project_of(c, idx):
         p["shades"].append({"name": nm, "verts": [[v[0] / 10.0, v[1] / 10.0, v[2] / 10.0] for v in s["verts"]]})
         stags[nm] = {"kind": "verts", "i": j + 1}
     p["tbs"] = [{"name": "PT_frente_forjado", "ttl": 0.5, "frsi": 0.6, "long": 10.0}]
+    wins_devs = devs
+    for d in wins_devs:
+        stags[d["name"]] = {"kind": "device", "i": 0, "dev": d}
     return p, tags, stags, wins
 
 
@@ -220,9 +238,15 @@ def geom_event(kind, c, conv, tags, stags, wins, extra=None):
         if w["name"] in tags:
             seen.add(w["name"])
             ev["walls"].append({"name": w["name"], "tag": tags[w["name"]], "corners": w["corners"], "normal": w["normal"], "nrep": w["nrep"], "area": w["area"]})
+    devs = [t["dev"] for t in stags.values() if t.get("kind") == "device"]
+    byname = {s["name"]: s for s in g["shades"]}
+    if devs:
+        ev["devs"] = [dict(d, found=d["name"] in byname, corners=byname.get(d["name"], {}).get("corners", [])) for d in devs]
     for s in g["shades"]:
         if s["name"] in stags:
             seen.add(s["name"])
+            if stags[s["name"]]["kind"] == "device":
+                continue
             ev["shades"].append({"name": s["name"], "tag": stags[s["name"]], "corners": s["corners"], "normal": s["normal"], "nrep": s["nrep"], "area": s["area"]})
     got = {v["name"]: v for v in g["windows"]}
     for v in wins:
